@@ -81,6 +81,15 @@ func checkC20Parse(c *Ctx, n int) {
 				}
 				return x
 			}, nm)
+			// (letter case and characters between 'Z' and 'a' matter to the order of the enumeration)
+			switch r.Intn(6) {
+			case 0:
+				nm = strings.ToUpper(nm[:1]) + nm[1:]
+			case 1:
+				nm = "_" + nm
+			case 2:
+				nm = strings.ToUpper(nm)
+			}
 			if nm != "" && !seen[nm] {
 				seen[nm] = true
 				names = append(names, nm)
